@@ -113,27 +113,30 @@ func (ts tokens) Error() error {
 		Error() error
 	}
 
-	var merr error
+	// the errors are collected and joined once: joining inside the loop nests
+	// them, and rendering a nest of n errors copies the text of the first ones
+	// n times (a header of malformed tokens made the error text quadratic)
+	var errs []error
 
 	for _, t := range ts {
 		if bt, ok := t.(badToken); ok {
-			merr = errors.Join(merr, bt.Error())
+			errs = append(errs, bt.Error())
 		}
 	}
 
-	return merr
+	return errors.Join(errs...)
 }
 
 func (ts tokens) Verify(ctx context.Context, isPerm Predicate, v Verifier) ([]*macaroon.CaveatSet, error) {
 	var (
 		verified = make([]*macaroon.CaveatSet, 0, len(ts)/2)
-		merr     = errors.New("no verified tokens")
+		errs     = []error{errors.New("no verified tokens")}
 		dbp      = ts.dischargesByPermission(isPerm)
 		res      = v.Verify(ctx, dbp)
 	)
 
 	if res == nil {
-		return nil, merr
+		return nil, errs[0]
 	}
 
 	for i, t := range ts {
@@ -153,7 +156,7 @@ func (ts tokens) Verify(ctx context.Context, isPerm Predicate, v Verifier) ([]*m
 		case *VerifiedMacaroon:
 			verified = append(verified, tt.Caveats)
 		case *FailedMacaroon:
-			merr = errors.Join(merr,
+			errs = append(errs,
 				fmt.Errorf("token %s: %w", tt.UnsafeMac.Nonce.UUID(), tt.Err),
 			)
 		default:
@@ -162,31 +165,31 @@ func (ts tokens) Verify(ctx context.Context, isPerm Predicate, v Verifier) ([]*m
 	}
 
 	if len(verified) == 0 {
-		return nil, merr
+		return nil, errors.Join(errs...)
 	}
 
 	return verified, nil
 }
 
 func (ts tokens) Validate(accesses ...macaroon.Access) error {
-	merr := errors.New("no authorized tokens")
+	errs := []error{errors.New("no authorized tokens")}
 
 	for _, t := range ts.Select(IsVerifiedMacaroon) {
 		vm := t.(*VerifiedMacaroon)
 
 		if err := vm.Caveats.Validate(accesses...); err != nil {
-			merr = errors.Join(merr, fmt.Errorf("token %s: %w", vm.UnsafeMac.Nonce.UUID(), err))
+			errs = append(errs, fmt.Errorf("token %s: %w", vm.UnsafeMac.Nonce.UUID(), err))
 		} else {
 			return nil
 		}
 	}
 
-	return merr
+	return errors.Join(errs...)
 }
 
 func (ts *tokens) Discharge(isPerm Predicate, tpLocation string, tpKey macaroon.EncryptionKey, cb Discharger) error {
 	var (
-		merr    error
+		errs    []error
 		newDiss []Token
 		ubl     = ts.undischargedTicketsByLocation(isPerm)
 	)
@@ -199,24 +202,24 @@ func (ts *tokens) Discharge(isPerm Predicate, tpLocation string, tpKey macaroon.
 		for _, ticket := range tickets {
 			tCavs, dm, err := macaroon.DischargeTicket(tpKey, tpLocation, ticket)
 			if err != nil {
-				merr = errors.Join(merr, tpErr(err))
+				errs = append(errs, tpErr(err))
 				continue
 			}
 
 			dmCavs, err := cb(tCavs)
 			if err != nil {
-				merr = errors.Join(merr, tpErr(err))
+				errs = append(errs, tpErr(err))
 				continue
 			}
 
 			if err := dm.Add(dmCavs...); err != nil {
-				merr = errors.Join(merr, tpErr(err))
+				errs = append(errs, tpErr(err))
 				continue
 			}
 
 			dmStr, err := dm.String()
 			if err != nil {
-				merr = errors.Join(merr, tpErr(err))
+				errs = append(errs, tpErr(err))
 				continue
 			}
 
@@ -229,8 +232,8 @@ func (ts *tokens) Discharge(isPerm Predicate, tpLocation string, tpKey macaroon.
 		}
 	}
 
-	if merr != nil {
-		return merr
+	if len(errs) != 0 {
+		return errors.Join(errs...)
 	}
 
 	*ts = append(*ts, newDiss...)
@@ -247,7 +250,7 @@ func (ts tokens) Attenuate(isPerm Predicate, caveats ...macaroon.Caveat) error {
 	}
 
 	var (
-		merr error
+		errs []error
 
 		// we stage all our updates in a separate slice, so we can skip applying
 		// any changes if there are errors.
@@ -264,20 +267,20 @@ func (ts tokens) Attenuate(isPerm Predicate, caveats ...macaroon.Caveat) error {
 
 		r.mac, err = m.UnsafeMacaroon().Clone()
 		if err != nil {
-			merr = errors.Join(merr, fmt.Errorf("clone token %s: %w", uuid, err))
+			errs = append(errs, fmt.Errorf("clone token %s: %w", uuid, err))
 			continue
 		}
 
 		cavsBefore := r.mac.UnsafeCaveats.Caveats
 		if err = r.mac.Add(caveats...); err != nil {
-			merr = errors.Join(merr, fmt.Errorf("attenuate token %s: %w", uuid, err))
+			errs = append(errs, fmt.Errorf("attenuate token %s: %w", uuid, err))
 			continue
 		}
 
 		if vm, ok := t.(*VerifiedMacaroon); ok {
 			r.vcs, err = vm.Caveats.Clone()
 			if err != nil {
-				merr = errors.Join(merr, fmt.Errorf("clone verified caveats %s: %w", uuid, err))
+				errs = append(errs, fmt.Errorf("clone verified caveats %s: %w", uuid, err))
 				continue
 			}
 
@@ -289,15 +292,15 @@ func (ts tokens) Attenuate(isPerm Predicate, caveats ...macaroon.Caveat) error {
 		}
 
 		if r.str, err = r.mac.String(); err != nil {
-			merr = errors.Join(merr, fmt.Errorf("encode token %s: %w", uuid, err))
+			errs = append(errs, fmt.Errorf("encode token %s: %w", uuid, err))
 			continue
 		}
 
 		replacements = append(replacements, &r)
 	}
 
-	if merr != nil {
-		return merr
+	if len(errs) != 0 {
+		return errors.Join(errs...)
 	}
 
 	for _, r := range replacements {
